@@ -191,9 +191,10 @@ def susp_stage(work, res, tier, replay=None):
         vlib.run_harness(work, binp, "TestVerifSuspReplay", {"VERIF_PATHS": fresh, "VERIF_TRACE": tr, "VERIF_TABLE": table})
         traces.append((tr, "replay"))
     else:
-        r = vlib.model_check(work, "SuspCfg", "Susp_model.cfg")
+        model = "Susp_model.cfg" if tier == "quick" else "Susp_model_t.cfg"
+        r = vlib.model_check(work, "SuspCfg", model)
         res.add_model(r)
-        log("model Susp_model.cfg: %d states, %d transitions, %.0fs" % (r["states"], r["transitions"], r["wall_s"]))
+        log("model %s: %d states, %d transitions, %.0fs" % (model, r["states"], r["transitions"], r["wall_s"]))
         gen = "Susp_gen.cfg" if tier == "quick" else "Susp_gen_t.cfg"
         paths = work.path("spaths.ndjson")
         n = vlib.generate(work, "SuspCfg", gen, paths)
